@@ -835,36 +835,39 @@ where
         let msg = "Unable to grow memory";
         let state = self.state_mut();
 
-        let current_segment = self.current_segment(msg);
+        // the chunk can only be grown in place in the segment it was allocated from, which is
+        // not necessarily the current segment
+        let segment_id = old_pointer.offset.segment_id();
+        let segment = match state
+            .shared_memory_map
+            .get(SlotMapKey::new(segment_id.value() as usize))
+        {
+            Some(segment) => segment,
+            None => {
+                fatal_panic!(from self,
+                    "This should never happen! {msg} since the shared memory segment of {:?} is not available!", old_pointer.offset);
+            }
+        };
 
         match unsafe {
-            current_segment
+            segment
                 .shm
                 .grow(old_pointer, old_layout, new_layout, placement)
         } {
             Ok(mut ptr) => {
-                ptr.offset
-                    .set_segment_id(SegmentId::new(state.current_idx.value() as u8));
+                ptr.offset.set_segment_id(segment_id);
                 return Ok(ptr);
             }
-            Err(AllocationGrowError::OutOfMemory) => {
-                self.handle_reallocation(state, new_layout, &current_segment.shm)?
-            }
+            Err(AllocationGrowError::OutOfMemory) => (),
             Err(e) => {
                 fail!(from self, with e,
                         "{msg} due to {e:?}.");
             }
         }
 
-        let resized_segment = self.current_segment(msg);
-
-        let new_pointer = match resized_segment.shm.allocate(new_layout) {
-            Ok(mut ptr) => {
-                resized_segment.register_offset();
-                ptr.offset
-                    .set_segment_id(SegmentId::new(state.current_idx.value() as u8));
-                ptr
-            }
+        // allocates from the current segment and resizes it when required
+        let new_pointer = match self.allocate(new_layout) {
+            Ok(ptr) => ptr,
             Err(e) => {
                 fail!(from self, with e.into(),
                     "{msg} since a resize and new allocation in a new segment failed. [{e:?}]");
